@@ -137,3 +137,43 @@ func callRes(v ssa.Value) (*ssa.Call, int) {
 func posOf(c *km.Ctx, in ssa.Instruction) string { return c.P.InstrPos(in) }
 
 func sprintf(f string, a ...any) string { return fmt.Sprintf(f, a...) }
+
+// membership recognises a fact that says "elem is a member of list" in one of the idioms in use:
+// slices.Contains(list, elem) is true; slices.Index(list, elem) >= 0 (or != -1, > -1); the comma-ok of a map
+// lookup m[elem]. (Equality with a ranged-over element is handled by the callers, which know the list field.)
+func membership(f km.Fact) (list, elem ssa.Value, ok bool) {
+	cl, idx := callRes(f.X)
+	if cl != nil && idx == 0 {
+		name := km.CalleeFull(cl.Common())
+		if i := strings.Index(name, "["); i > 0 {
+			name = name[:i]
+		}
+		args := cl.Common().Args
+		switch name {
+		case "slices.Contains":
+			if f.Op == token.ILLEGAL && f.Pol && len(args) == 2 {
+				return km.Unwrap(args[0]), km.Unwrap(args[1]), true
+			}
+		case "slices.Index":
+			if k, isK := km.ConstInt(f.Y); isK && len(args) == 2 {
+				if (f.Op == token.GEQ && k == 0) || (f.Op == token.NEQ && k == -1) || (f.Op == token.GTR && k == -1) {
+					return km.Unwrap(args[0]), km.Unwrap(args[1]), true
+				}
+			}
+		}
+	}
+	if f.Op == token.ILLEGAL && f.Pol {
+		if ex, isEx := f.X.(*ssa.Extract); isEx && ex.Index == 1 {
+			if lk, isLk := ex.Tuple.(*ssa.Lookup); isLk && lk.CommaOk {
+				return km.Unwrap(lk.X), km.Unwrap(lk.Index), true
+			}
+		}
+	}
+	return nil, nil, false
+}
+
+// isConfigList: v is (a load of) the configuration slice Base.<field>
+func isConfigList(v ssa.Value, field string) bool {
+	_, path, ok := km.FieldPath(km.Unwrap(v))
+	return ok && strings.HasSuffix(path, "Base."+field)
+}
